@@ -54,7 +54,17 @@ def s_inertia():
         "kind": st.just("inertia"), "mass": gens.logmag(-3, 4), "c": gens.trans(3, -3, 2),
         "A": st.lists(gens.fl(-3, 3), min_size=9, max_size=9), "eps": gens.logmag(-3, 1),
         "mass2": gens.logmag(-3, 4), "c2": gens.trans(3, -3, 2), "B": st.lists(gens.fl(-3, 3), min_size=9, max_size=9),
-        "x": vec6(), "noI": st.booleans()})
+        "x": vec6(), "noI": st.booleans(),
+        # element type of the centre-of-mass array (the vector is then rounded to small integers, non-negative for unsigned types)
+        "cdtype": st.sampled_from([None, None, None, "float32", "int32", "int8", "uint8", "uint16"])})
+
+
+def gen_inertia_dtypes(tier):
+    for dt in ("float32", "int64", "int32", "int16", "int8", "uint8", "uint16"):
+        for cvec in ([1.0, 2.0, 3.0], [3.0, -2.0, 5.0], [0.0, 7.0, 1.0]):
+            for noI in (False, True):
+                yield {"kind": "inertia", "mass": 2.5, "c": cvec, "A": [1.0, 0.2, -0.3, 0.5, 1.5, 0.1, -0.2, 0.4, 2.0], "eps": 0.5, "mass2": 1.5, "c2": [0.5, -1.0, 2.0],
+                       "B": [0.7, -0.1, 0.3, 0.2, 1.1, 0.5, -0.4, 0.1, 0.9], "x": [1.0, -2.0, 3.0, 0.5, 2.0, -1.0], "noI": noI, "cdtype": dt}
 
 
 def s_transform():
@@ -200,10 +210,17 @@ def _pa(mass, cvec, I3):
 
 def _inertia(case):
     mass, cv = case["mass"], arr(case["c"])
+    cdt = case.get("cdtype")
+    if cdt:
+        cv = np.round(cv)
+        if np.dtype(cdt).kind == "u":
+            cv = np.abs(cv)
+        if float(np.max(np.abs(cv))) > 100:
+            cdt = None
     I3 = np.zeros((3, 3)) if case["noI"] else _spd(case["A"], case["eps"])
-    c = Checker("inertia", mass=mass, noI=case["noI"])
+    c = Checker("inertia", mass=mass, noI=case["noI"], cdtype=case.get("cdtype"))
     Jarg = I3.copy()
-    carg = np.array(case["c"], dtype=float)
+    carg = np.array(cv, dtype=np.dtype(cdt) if cdt else float)
     if case["noI"]:
         ok, SI = c.lib("ctor", L.SpatialInertia, mass, carg)
     else:
@@ -211,7 +228,7 @@ def _inertia(case):
     if not ok:
         return c.out
     c.eq("ctor/argument_I_untouched", Jarg, I3, 0)
-    c.eq("ctor/argument_c_untouched", carg, cv, 0)
+    c.eq("ctor/argument_c_untouched", carg.astype(float), cv, 0)
     if not case["noI"]:
         # a second body built from the same inertia array gets the same matrix
         ok2, SIb = c.lib("ctor/again", L.SpatialInertia, mass, carg, Jarg)
@@ -327,6 +344,7 @@ def subchecks(tier):
         Sub("arith", strategy=s_arith(), n=(500, 8000), shards=(3, 8)),
         Sub("cross", strategy=s_cross(), n=(500, 8000), shards=(3, 8)),
         Sub("inertia", strategy=s_inertia(), n=(400, 8000), shards=(4, 8)),
+        Sub("inertia_element_types", gen=gen_inertia_dtypes, shards=(2, 4)),
         Sub("transform", strategy=s_transform(), n=(500, 8000), shards=(3, 8)),
         *probes.subs(PROPERTY_ID),
     ]
